@@ -94,6 +94,8 @@ PrimName(name) == IF name = "none" THEN "NoneType" ELSE name
 \* or boolean word (logged fact dg # <<>> on text values), collections (their first element is taken); other types: unknown, hence possibly
 MayMatch(e, C) == IF C.k = "prim" /\ C.name = "int"
                     THEN Numeric(e) \/ e.k = "none" \/ (e.k \in {"str", "bytes"} /\ e.dg # <<>>) \/ Container(e) \/ e.k \in {"intx", "floatx", "decx"}
+                         \* empty text converts to 0 ("convert '', None and others to 0"), and bytes are decoded leniently: what is left may be empty
+                         \/ (e.k = "str" /\ e.ln = 0) \/ e.k = "bytes"
                   ELSE TRUE
 RECURSIVE Conforms(_, _)
 ArgsConform(v, T) ==
